@@ -160,6 +160,8 @@ Constructed == <<
   D("Q-ext1", TSeq(<<C(I07), O(TBool)>>, TRUE, <<C(Int0)>>)),
   D("Q-ext2", TSeq(<<C(TBool)>>, TRUE, <<C(IA5), O(I07)>>)),
   D("Q-ext3", TSeq(<<>>, TRUE, <<C(TBool), C(TOctets(CNone)), C(TNull)>>)),
+  D("Q-extdef", TSeq(<<C(I07)>>, TRUE, <<Df(Int0, I(3)), O(TBool)>>)),
+  D("Q-extdef2", TSeq(<<C(I07), Df(TBool, FALSE)>>, TRUE, <<Df(I07, I(5)), Df(IA5, <<65>>)>>)),
   D("Q-ext7", TSeq(<<C(I07)>>, TRUE, <<TN(0), TN(1), TN(2), TN(3), TN(4), TN(5), TN(6)>>)),
   D("Q-ext8", TSeq(<<C(I07)>>, TRUE, <<TN(0), TN(1), TN(2), TN(3), TN(4), TN(5), TN(6), TN(7)>>)),
   D("Q-ext9", TSeq(<<C(I07)>>, TRUE, <<TN(0), TN(1), TN(2), TN(3), TN(4), TN(5), TN(6), TN(7), TN(8)>>)),
@@ -220,6 +222,7 @@ CommonDefs == <<
   D("Q-ooo", TSeq(<<O(Int0), O(TBool), O(IA5)>>, FALSE, <<>>)),
   D("Q-def", TSeq(<<Df(Int0, I(3)), C(TBool)>>, FALSE, <<>>)),
   D("Q-ext1", TSeq(<<C(I07), O(TBool)>>, TRUE, <<C(Int0)>>)),
+  D("Q-extdef", TSeq(<<C(I07)>>, TRUE, <<Df(Int0, I(3)), O(TBool)>>)),
   D("Q-choice", TSeq(<<C(TRef("K-ib")), O(TChoice(<<C(TNull), C(TOctets(CNone))>>, FALSE, <<>>)), C(TReal)>>, FALSE, <<>>)),
   D("Q-tagged", TSeq(<<Comp("x", TTag("C", 5, "D", Int0), "M"), Comp("x", TTag("C", 6, "D", TRef("K-ib")), "M")>>, FALSE, <<>>)),
   D("Q-nest", TSeq(<<C(TSeq(<<C(I07), O(TBool)>>, FALSE, <<>>)), C(TSeqOf(I07, CNone))>>, FALSE, <<>>)),
